@@ -505,10 +505,71 @@ func nameChain(e *E) ([]string, bool) {
 	return nil, false
 }
 
+// longForm spells a string that contains line breaks as a long bracket: the level is the smallest one the content
+// cannot close; a first line break right after the opening bracket is not part of the string (so one is added when
+// the content itself starts with a line break, and sometimes anyway).  Returns the literal and the number of line
+// breaks it contains.
+func longForm(s string, extraLevel int) (string, int) {
+	extra := strings.HasPrefix(s, "\n") || len(s)%2 == 0
+	n := 0
+	for {
+		closer := "]" + strings.Repeat("=", n) + "]"
+		if strings.Index(s+closer, closer) == len(s) {
+			break
+		}
+		n++
+	}
+	n += extraLevel
+	eq := strings.Repeat("=", n)
+	lit := "[" + eq + "["
+	cnt := strings.Count(s, "\n")
+	if extra {
+		lit += "\n"
+		cnt++
+	}
+	return lit + s + "]" + eq + "]", cnt
+}
+
+func multilineLiteral(s *S) (string, bool) {
+	if s.Op == "local" && len(s.Names) == 1 && len(s.Es) == 1 && s.Es[0].Op == "str" && strings.Contains(s.Es[0].S, "\n") && !strings.Contains(s.Es[0].S, "\r") {
+		return s.Es[0].S, true
+	}
+	return "", false
+}
+
 func (r *renderer) stmt(s *S) {
 	switch s.Op {
 	case "local":
 		r.setLine(s)
+		if content, ok := multilineLiteral(s); ok {
+			// `local name = <string with line breaks>`: quoted in the canonical rendering (padded with blank lines),
+			// a long bracket spanning the same number of lines in the others
+			r.tn("local")
+			r.t(s.Names[0])
+			if s.Attribs[0] != "-" {
+				r.t("<" + s.Attribs[0] + ">")
+			}
+			r.t("=")
+			if r.st.Name == "canon" {
+				_, cnt := longForm(content, 0)
+				r.t(r.strLit(content))
+				r.nl()
+				for i := 0; i < cnt; i++ {
+					r.lines = append(r.lines, "")
+					r.line++
+				}
+			} else {
+				lvl := 0
+				if r.st.Fancy {
+					lvl = r.st.Rng.Below(3)
+				}
+				lit, cnt := longForm(content, lvl)
+				r.t(lit)
+				r.nl()
+				r.line += cnt
+			}
+			return
+		}
 		r.tn("local")
 		for i, n := range s.Names {
 			if i > 0 {
